@@ -281,6 +281,9 @@ static void probe(void *vs)
         const char *sh = !nl ? "empty needle" : (nl > n ? "needle longer than buffer" : (p ? "needle present" : "needle absent"));
         if (g1 != ex) FAIL(CLS "_find_from_ptr", "model:return", sh, "find_from_ptr(needle %d bytes)=%ld expected %ld", nl, g1, ex);
         if (g2 != ex) FAIL(CLS "_find", "model:return", sh, "find(needle %d bytes)=%ld expected %ld", nl, g2, ex);
+        { unsigned char *h2 = mc_heapmem(nd, (size_t) nl); T os = F(new_from_buff)(h2, (spif_memidx_t) nl, (spif_memidx_t) (nl + 40));      /* the same needle in an object with spare capacity */
+          if (os) { long g3 = (long) F(find)(o, os); F(del)(os); if (g3 != ex) FAIL(CLS "_find", "model:return", sh, "find(needle %d bytes held with spare capacity)=%ld expected %ld", nl, g3, ex); }
+          free(h2); }
     }
     for (int i = -w; i <= w; i++) for (int c = -w; c <= w; c++) {
         int st = i < 0 ? i + n : i, ok = (st >= 0 && st < n), cnt = 0;
